@@ -412,3 +412,60 @@ def key_quantities(prog, f, key):
     if len(out & four) >= 3:
         out |= four
     return out
+
+
+# ---------------------------------------------------------------------------------------------- state carried into a derived Sequence(...)
+def carried_state(prog, f, call):
+    """What a `Sequence(<string>, ...)` construction inside f carries over besides the string.
+    -> list of (kind, text) with kind in: 'dmax' (a delta-max is handed on), 'alias' (the receiver's own charge array is handed on, not a copy),
+       'patched-copy' (a copy of the receiver's pattern, edited at the same indices as the string with the class of the substituted letter),
+       'unknown' (anything else)."""
+    out = []
+    params = ["seq", "dmax", "chargePattern"]
+    extra = []
+    for i, a in enumerate(call.args[1:], start=1):
+        extra.append((params[i] if i < len(params) else "arg%d" % i, a))
+    for k in call.keywords:
+        if k.arg and k.arg != "validateSeq":
+            extra.append((k.arg, k.value))
+    for name, v in extra:
+        txt = unparse(v).replace(" ", "")
+        if name == "dmax":
+            out.append(("dmax", txt))
+            continue
+        if name != "chargePattern":
+            out.append(("unknown", "%s=%s" % (name, txt)))
+            continue
+        src = v
+        local = None
+        if isinstance(v, ast.Name):
+            defs = [n for n in ast.walk(f.node) if isinstance(n, ast.Assign) and len(n.targets) == 1 and isinstance(n.targets[0], ast.Name) and n.targets[0].id == v.id]
+            if len(defs) != 1:
+                out.append(("unknown", txt))
+                continue
+            local, src = v.id, defs[0].value
+        st = unparse(src).replace(" ", "")
+        if st in ("self.chargePattern", "self.chargePattern[:]", "np.asarray(self.chargePattern)", "np.asarray(self.chargePattern,dtype=float)"):
+            out.append(("alias", "%s = %s" % (local or "argument", st)))
+            continue
+        copies = ("self.chargePattern.copy()", "np.array(self.chargePattern)", "np.array(self.chargePattern,dtype=float)", "np.copy(self.chargePattern)",
+                  "cp.deepcopy(self.chargePattern)", "copy.deepcopy(self.chargePattern)", "np.array(self.chargePattern,copy=True)")
+        if st not in copies or local is None:
+            out.append(("unknown", txt))
+            continue
+        # every edit of the copy is paired with an edit of the string at the same index, and the number written is the class of the letter written
+        cls = {"E": -1, "D": -1, "K": 1, "R": 1}
+        pat = [n for n in ast.walk(f.node) if isinstance(n, ast.Assign) and len(n.targets) == 1 and isinstance(n.targets[0], ast.Subscript)
+               and isinstance(n.targets[0].value, ast.Name) and n.targets[0].value.id == local]
+        strs = [n for n in ast.walk(f.node) if isinstance(n, ast.Assign) and len(n.targets) == 1 and isinstance(n.targets[0], ast.Subscript)
+                and isinstance(n.value, ast.Constant) and isinstance(n.value.value, str) and isinstance(n.targets[0].value, ast.Name) and n.targets[0].value.id != local]
+        ok = bool(pat) and len(pat) == len(strs)
+        for pn in pat:
+            idx = unparse(pn.targets[0].slice)
+            twin = [sn for sn in strs if unparse(sn.targets[0].slice) == idx]
+            num = pn.value.operand.value * -1 if isinstance(pn.value, ast.UnaryOp) and isinstance(pn.value.op, ast.USub) and isinstance(pn.value.operand, ast.Constant) else \
+                (pn.value.value if isinstance(pn.value, ast.Constant) else None)
+            if len(twin) != 1 or num is None or cls.get(twin[0].value.value, 0) != num:
+                ok = False
+        out.append(("patched-copy" if ok else "unknown", "%s = %s; %d paired edits" % (local, st, len(pat))))
+    return out
